@@ -1,1 +1,87 @@
-// harness code mounted in serde_avro_fast (see DESIGN.md)
+// Mounted in serde_avro_fast::schema::union_variants_per_type_lookup
+use super::*;
+
+/// The lookup table of the union ["null","long"] (null first), written out by hand so that record
+/// harnesses do not have to run `PerTypeLookup::new` (20-slot table, string inserts: ~150 s). The harness
+/// `c02_lookup_table_null_long` decides that the real `new` produces exactly these entries
+/// (assume-guarantee, both halves run in the same check).
+pub(crate) fn lookup_null_long(null: NodeRef<'static>, long: NodeRef<'static>) -> PerTypeLookup<'static> {
+	let mut direct: [Option<(i64, NodeRef<'static>)>; N_VARIANTS] = Default::default();
+	direct[UnionVariantLookupKey::Null as usize] = Some((0, null));
+	direct[UnionVariantLookupKey::UnitStruct as usize] = Some((0, null));
+	direct[UnionVariantLookupKey::UnitVariant as usize] = Some((0, null));
+	direct[UnionVariantLookupKey::Integer as usize] = Some((1, long));
+	direct[UnionVariantLookupKey::Integer4 as usize] = Some((1, long));
+	direct[UnionVariantLookupKey::Integer8 as usize] = Some((1, long));
+	PerTypeLookup { per_name: Default::default(), per_direct_union_variant: direct }
+}
+
+pub(crate) fn same_direct(a: &PerTypeLookup<'static>, b: &PerTypeLookup<'static>) -> bool {
+	let mut i = 0;
+	while i < N_VARIANTS {
+		match (a.per_direct_union_variant[i], b.per_direct_union_variant[i]) {
+			(None, None) => {}
+			(Some((x, p)), Some((y, q))) => {
+				if x != y || !std::ptr::eq(p.as_ref(), q.as_ref()) {
+					return false;
+				}
+			}
+			_ => return false,
+		}
+		i += 1;
+	}
+	true
+}
+
+// @harness props=C02,C13,C14 tier=quick timeout=1800
+// @bound the type-directed lookup table the real PerTypeLookup::new builds for ["null","long"] equals the hand-written table used by the record harnesses (all 20 slots)
+#[kani::proof]
+#[kani::unwind(22)]
+#[kani::stub(alloc::fmt::format, crate::verif::stub_format)]
+fn c02_lookup_table_null_long() {
+	let null = crate::schema::verif::nref(&crate::schema::verif::NULL);
+	let long = crate::schema::verif::nref(&crate::schema::verif::LONG);
+	let vars = [null, long];
+	let real = PerTypeLookup::new(&vars);
+	let hand = lookup_null_long(null, long);
+	assert!(same_direct(&real, &hand), "c02_lookup_table: PerTypeLookup::new([null,long]) differs from the expected table");
+	std::mem::forget(real);
+	std::mem::forget(hand);
+}
+
+fn unnamed_is(l: &PerTypeLookup<'static>, k: UnionVariantLookupKey, want: Option<(i64, NodeRef<'static>)>) -> bool {
+	match (l.per_direct_union_variant[k as usize], want) {
+		(None, None) => true,
+		(Some((x, p)), Some((y, q))) => x == y && std::ptr::eq(p.as_ref(), q.as_ref()),
+		_ => false,
+	}
+}
+
+// @harness props=C02 tier=quick timeout=1800
+// @bound type-directed union choice with several equally suitable branches must be None (=> serializer Err): unions [long, timestamp-millis], [long, timestamp-millis, timestamp-micros] and 4 such branches for 8-byte integers; lower-priority branch wins otherwise: [int, long] for 4-byte / 8-byte integers
+#[kani::proof]
+#[kani::unwind(22)]
+#[kani::stub(alloc::fmt::format, crate::verif::stub_format)]
+fn c02_lookup_conflicts() {
+	use crate::schema::verif as n;
+	let long = n::nref(&n::LONG);
+	let tsm = n::nref(&n::TS_MILLIS);
+	let tsu = n::nref(&n::TS_MICROS);
+	let tmu = n::nref(&n::TIME_MICROS);
+	let int = n::nref(&n::INT);
+	let two = PerTypeLookup::new(&[long, tsm]);
+	assert!(unnamed_is(&two, UnionVariantLookupKey::Integer8, None), "c02_lookup: two equally suitable branches must not be chosen between");
+	std::mem::forget(two);
+	let three = PerTypeLookup::new(&[long, tsm, tsu]);
+	assert!(unnamed_is(&three, UnionVariantLookupKey::Integer8, None), "c02_lookup: three equally suitable branches must not be chosen between");
+	assert!(unnamed_is(&three, UnionVariantLookupKey::Integer4, None), "c02_lookup: three equally suitable branches must not be chosen between (4-byte)");
+	std::mem::forget(three);
+	let four = PerTypeLookup::new(&[long, tsm, tsu, tmu]);
+	assert!(unnamed_is(&four, UnionVariantLookupKey::Integer8, None), "c02_lookup: four equally suitable branches must not be chosen between");
+	std::mem::forget(four);
+	let il = PerTypeLookup::new(&[int, long]);
+	assert!(unnamed_is(&il, UnionVariantLookupKey::Integer4, Some((0, int))), "c02_lookup: i32 must go to int in [int, long]");
+	assert!(unnamed_is(&il, UnionVariantLookupKey::Integer8, Some((1, long))), "c02_lookup: i64 must go to long in [int, long]");
+	assert!(unnamed_is(&il, UnionVariantLookupKey::Integer, None), "c02_lookup: other integer widths are ambiguous in [int, long]");
+	std::mem::forget(il);
+}
